@@ -1,7 +1,8 @@
 (** * Proofs/EndOfChainProofs.v — facts about Model/EndOfChain.v (C07: the end of a chain only hands velocity over). *)
 From Coq Require Import ZArith QArith List Bool Arith Lia Reals Lra.
 From Flocq Require Import Core.Core IEEE754.BinarySingleNaN.
-Require Import JF.Base.F64 JF.Base.PyFloat JF.Model.Time JF.Model.EndOfChain JF.Proofs.F64Facts.
+Require Import JF.Base.F64 JF.Base.PyFloat JF.Model.Time JF.Model.Periodic JF.Model.TimeSlice JF.Model.Lifting
+        JF.Model.Kinematics JF.Model.Handlers JF.Model.EndOfChain JF.Proofs.F64Facts.
 Import ListNotations.
 
 (** ** periodic direction: one non-zero component, moved to the next direction *)
@@ -94,6 +95,45 @@ Qed.
 Lemma periodic_rejects : forall dim v, length (nonzero_idxs v) <> 1%nat -> new_velocity EPeriodic dim v = None.
 Proof.
   intros dim v H. unfold new_velocity. destruct (nonzero_idxs v) as [|a [|b l]]; cbn in H; try reflexivity. lia.
+Qed.
+
+(** ** the hand-over itself (one level: the old active point mass stops, another one starts) *)
+Lemma single_point_mass_handover : forall env k T u w v ts p nv,
+  hu_parent u = None -> hu_parent w = None ->
+  hu_vel u = Some v -> hu_ts u = Some ts -> hu_vel w = None -> hu_ts w = None ->
+  zl_eqb (hu_id w) (hu_id u) = false ->
+  time_slice_position (hu_pos u) v T ts (repeat (e_L env) (e_dim env)) = Some p ->
+  vec_eqb v v = true ->
+  new_velocity k (e_dim env) v = Some nv -> small nv = false -> small (repeat fzero (e_dim env)) = true ->
+  eoc_out_state env k T [u] [w] =
+  Some (mkEO [mkHU (hu_id u) p None None (hu_charge u) None (hu_weight u);
+              mkHU (hu_id w) (hu_pos w) (Some nv) (Some T) (hu_charge w) None (hu_weight w)] T).
+Proof.
+  intros env k T u w v ts p nv Pu Pw Vu Tu Vw Tw I1 SL VE NV S1 S0.
+  unfold eoc_out_state. rewrite Tu.
+  assert (SA : slice_all env T [u] = Some [mkHU (hu_id u) p (Some v) (Some T) (hu_charge u) (hu_parent u) (hu_weight u)]).
+  { unfold slice_all. cbn [map]. unfold slice_unit. rewrite Vu, Tu. unfold bind. rewrite SL. reflexivity. }
+  rewrite SA. unfold bind.
+  set (u1 := mkHU (hu_id u) p (Some v) (Some T) (hu_charge u) (hu_parent u) (hu_weight u)).
+  assert (LI : leaf_idxs [u1] = [0%nat]).
+  { unfold leaf_idxs, is_leaf. cbn. rewrite Pu. reflexivity. }
+  rewrite LI. cbn [nth getu hu_vel u1].
+  assert (LW : leaf_idxs [w] = [0%nat]).
+  { unfold leaf_idxs, is_leaf. cbn. rewrite Pw. reflexivity. }
+  rewrite LW.
+  cbn [forallb nth getu hu_vel u1 andb negb]. rewrite VE. cbn [andb negb].
+  rewrite NV.
+  cbn [map nth getu hu_id u1 filter existsb orb negb].
+  rewrite I1. cbn [orb negb filter forallb nth getu existsb].
+  rewrite Vw, Tw. cbn [andb negb].
+  cbn [length seq map nth getu existsb Nat.eqb orb hu_id u1].
+  rewrite ?I1. cbn [orb].
+  unfold with_vel, cutoff. cbn [hu_vel hu_id hu_pos hu_ts hu_charge hu_parent hu_weight u1].
+  rewrite S0, S1.
+  cbn [fold_left]. unfold register. cbn [nth getu hu_parent u1]. rewrite Pu, Pw.
+  cbn [app length seq flat_map lookup_idch filter nth getu hu_id].
+  cbn [map all_some]. unfold commit_unit. cbn [lookup_change filter].
+  reflexivity.
 Qed.
 
 (** ** sequential direction: an exact rotation scales the squared speed by c^2 + s^2 *)
